@@ -304,7 +304,8 @@ def r_log_lockstep(ctx: RuleCtx, col: Collector):
     if tags is None or dat is None:
         raise AnalysisError("ScalarToFile._response: header / row lists not recognised")
     # header iff first iteration
-    if norm(tags_test) in (f"{selfn}.iter==0", f"0=={selfn}.iter"):
+    from .common import expand_names
+    if norm(expand_names(f.node, tags_test)) in (f"{selfn}.iter==0", f"0=={selfn}.iter"):
         col.ok(where_of(f), f.rel, line_of(tags_test), "header collected iff first iteration", U(tags_test))
     else:
         col.bad(where_of(f), f.rel, line_of(tags_test), "header collected iff first iteration",
